@@ -211,7 +211,11 @@ where
         let old_index = insert(ctx.state_mut(), index_ident, index.into());
         let old_value = insert(ctx.state_mut(), value_ident, cloned_value);
 
-        let value = (self.runner)(ctx)?;
+        // A `return` inside the closure ends this iteration with the returned value.
+        let value = match (self.runner)(ctx) {
+            Ok(value) | Err(ExpressionError::Return { value, .. }) => value,
+            Err(err) => return Err(err),
+        };
 
         cleanup(ctx.state_mut(), index_ident, old_index);
         cleanup(ctx.state_mut(), value_ident, old_value);
@@ -233,7 +237,12 @@ where
         let ident = self.ident(0);
         let old_key = insert(ctx.state_mut(), ident, cloned_key.into());
 
-        *key = (self.runner)(ctx)?.try_bytes_utf8_lossy()?.into();
+        // A `return` inside the closure ends this iteration with the returned value.
+        let new_key = match (self.runner)(ctx) {
+            Ok(value) | Err(ExpressionError::Return { value, .. }) => value,
+            Err(err) => return Err(err),
+        };
+        *key = new_key.try_bytes_utf8_lossy()?.into();
 
         cleanup(ctx.state_mut(), ident, old_key);
 
@@ -254,7 +263,11 @@ where
         let ident = self.ident(0);
         let old_value = insert(ctx.state_mut(), ident, cloned_value);
 
-        *value = (self.runner)(ctx)?;
+        // A `return` inside the closure ends this iteration with the returned value.
+        *value = match (self.runner)(ctx) {
+            Ok(value) | Err(ExpressionError::Return { value, .. }) => value,
+            Err(err) => return Err(err),
+        };
 
         cleanup(ctx.state_mut(), ident, old_value);
 
